@@ -18,7 +18,7 @@ func init() {
 		r.floor("R4", 1)
 	}, checkC15)
 	register("C23", func(r *Report) {
-		r.Explanation = "Decides form, direction, length-field and size-bound clauses for all histories: (R1) no packet struct is built by a composite literal outside package packets1, and inside it every literal initialises the embedded Header (constructors and the decoder); (R2) the type-flow set of every argument of the gateway's MQTT-SN sender is within the types a gateway may send and the client library's within the types a client may send, and each such type has a case in the other side's dispatcher; (R3) length field = bytes written for every type and variant, header form thresholds (shared with C21-R3/R5); (R4) only the sender functions write to connections (one packet per datagram); (R5) every variable-length field of an outgoing packet that comes from outside the process passes a length comparison on its way to the sender. R5 is a known finding today (no bound anywhere: uint16(len) wraps above 65535 and datagrams above 8192 bytes are produced)."
+		r.Explanation = "Decides form, direction, length-field and size-bound clauses for all histories: (R1) no packet struct is built by a composite literal outside package packets1, and inside it every literal initialises the embedded Header (constructors and the decoder); (R2) the type-flow set of every argument of the gateway's MQTT-SN sender is within the types a gateway may send and the client library's within the types a client may send, and each such type has a case in the other side's dispatcher; (R3) length field = bytes written for every type and variant, header form thresholds (shared with C21-R3/R5); (R4) only the sender functions write to connections (one packet per datagram), and the repository's connection wrappers hand the whole buffer of one Write to the transport in one Write; (R5) every variable-length field of an outgoing packet that comes from outside the process passes a length comparison on its way to the sender. R5 is a known finding today (no bound anywhere: uint16(len) wraps above 65535 and datagrams above 8192 bytes are produced)."
 		r.floor("R1", 28)
 		r.floor("R2", 20)
 		r.floor("R3", 28)
@@ -26,7 +26,7 @@ func init() {
 		r.floor("R5", 2)
 	}, checkC23)
 	register("C24", func(r *Report) {
-		r.Explanation = "Taint rules: sources are fields of decoded MQTT-SN packets, sinks are fields of MQTT packets handed to the MQTT sender, sanitisers are dominating guards. (R1) QoS sinks need a guard or mapping bounding the value to 0-2 (PUBLISH: the QoS 3 -> 0 mapping, shared with C01-R1; SUBSCRIBE Qoss; CONNECT WillQos); (R2) PUBLISH topic: only lawful producers (shared with C01-R2, so never empty), and names that enter the registered-topics map from a client REGISTER, as well as decoded short names, need a wildcard test; (R3) SUBSCRIBE/UNSUBSCRIBE filters are non-empty because the decoder rejects empty string names (re-established on every run); (R4) CONNECT: the will-protocol order (shared with C09-R1: the CONNECT of a will exchange only after WILLTOPIC and WILLMSG), a non-empty will topic whenever the will flag stays set, PasswordFlag only with UsernameFlag, protocol name/level constants; (R5) every packet handed to the MQTT sender is created by NewControlPacket with the constant code of the asserted type or is a literal with its MessageType set. Known findings: QoS 3 in SUBSCRIBE and WILLTOPIC, wildcard/short names, empty WILLTOPIC, password without user."
+		r.Explanation = "Taint rules: sources are fields of decoded MQTT-SN packets, sinks are fields of MQTT packets handed to the MQTT sender, sanitisers are dominating guards. (R1) QoS sinks need a guard or mapping bounding the value to 0-2 (PUBLISH: the QoS 3 -> 0 mapping, shared with C01-R1; SUBSCRIBE Qoss; CONNECT WillQos); (R2) PUBLISH topic: only lawful producers (shared with C01-R2, so never empty), and names that enter the registered-topics map from a client REGISTER, as well as decoded short names, need a wildcard test; (R3) SUBSCRIBE/UNSUBSCRIBE filters are non-empty because the decoder rejects empty string names (re-established on every run) and the filter handed to the broker is on every path one of the lawful producers of a name, never a zero value (C03-R2, re-run here); (R4) CONNECT: the will-protocol order (shared with C09-R1: the CONNECT of a will exchange only after WILLTOPIC and WILLMSG), a non-empty will topic whenever the will flag stays set, PasswordFlag only with UsernameFlag, protocol name/level constants; (R5) every packet handed to the MQTT sender is created by NewControlPacket with the constant code of the asserted type or is a literal with its MessageType set. Known findings: QoS 3 in SUBSCRIBE and WILLTOPIC, wildcard/short names, empty WILLTOPIC, password without user."
 		r.floor("R1", 3)
 		r.floor("R2", 3)
 		r.floor("R3", 2)
@@ -460,6 +460,7 @@ func checkC23(c *Ctx, r *Report) {
 		}
 		c.checkConnEscapes(r, "R4", rel, mq)
 	}
+	c.checkWriteForwarders(r, "R4")
 	// R5: size bound at the single writers (R4 makes them the choke points)
 	for _, rel := range []string{"gateway", "client"} {
 		senders := gm.snSenders
@@ -578,6 +579,9 @@ func checkC24(c *Ctx, r *Report) {
 		d := cmod.decode(t, codecVariant{Cells: map[string]aval{"f:packets1." + tn + ".TopicIDType": kint(0)}}, 3, nil)
 		r.cond(d.Paths == 0, "R3", tn+":empty-filter-rejected", "-", "a "+tn+" whose string topic name is empty (3-byte body) is rejected by the decoder", "the decoder accepts a "+tn+" with an empty topic filter, which the gateway would forward")
 	}
+	// ... and the filter handed to the broker is always one of the lawful producers of a name - the decoded string
+	// name, GetTopicName on ok, DecodeShortTopic - never the zero value left over by a refused lookup (C03-R2, re-run)
+	importRulesF(c, r, "C03", map[string]string{"R2": "R3"}, func(rule, key string) bool { return strings.Contains(key, "Topics") })
 	// R4: CONNECT
 	importRules(c, r, "C09", map[string]string{"R1": "R4"})
 	c.checkConnectWillAndFlags(r, gm)
@@ -1160,4 +1164,45 @@ func (c *Ctx) checkAcceptErrors(r *Report, f *ssa.Function) {
 	}
 	r.cond(bad == "", "R4", key, c.instrPos(accept), fmt.Sprintf("%d return(s) on an Accept error, each only for errors that are not DTLS handshake failures", n),
 		"the accept loop returns ("+bad+") on an Accept error that may be a *dtls.HandshakeError: the DTLS handshake runs inside Accept, so one peer whose handshake fails (rejected certificate, no common cipher suite, garbage) stops the gateway - no other peer address gets a session any more and the established sessions end with the process")
+}
+
+// checkWriteForwarders (C23-R4): the connection the senders write to is wrapped by repository types (the context-aware
+// connection). One Write of the sender must be one Write of the transport - on UDP/DTLS each transport Write is one
+// datagram. Every repository method Write([]byte) that calls Write on an inner connection must hand it its own
+// parameter, unsliced (a retry of the same call after a timeout is still one datagram per successful call).
+func (c *Ctx) checkWriteForwarders(r *Report, rule string) {
+	n := 0
+	for _, f := range c.allRepoFuncs() {
+		if f.Name() != "Write" || f.Signature.Recv() == nil || len(f.Params) != 2 || !isByteSlice(f.Params[1].Type()) {
+			continue
+		}
+		if strings.HasSuffix(c.pos(f.Pos()), "_test.go") {
+			continue
+		}
+		allInstrs(f, func(i ssa.Instruction) {
+			ci, ok := i.(ssa.CallInstruction)
+			if !ok {
+				return
+			}
+			cc := ci.Common()
+			nm := ""
+			var arg ssa.Value
+			if cc.IsInvoke() && cc.Method.Name() == "Write" && len(cc.Args) == 1 {
+				nm, arg = "Write", cc.Args[0]
+			} else if g := staticCallee(cc); g != nil && g.Name() == "Write" && g.Signature.Recv() != nil && len(cc.Args) == 2 {
+				nm, arg = "Write", cc.Args[1]
+			}
+			if nm == "" || !isByteSlice(arg.Type()) {
+				return
+			}
+			n++
+			r.fn(f)
+			key := fnKey(f) + ":forwards-whole-buffer"
+			r.cond(arg == ssa.Value(f.Params[1]), rule, key, c.instrPos(i), "the wrapper hands its whole buffer to the transport in one Write",
+				"the connection wrapper passes something else than its whole buffer ("+exprStr(arg)+") to the transport's Write: on the datagram transports (UDP, DTLS) one packet leaves as several datagrams, none of which is a well-formed MQTT-SN packet with a matching length field")
+		})
+	}
+	if n == 0 {
+		r.ok(rule, "connection-wrappers:forward-whole-buffer", "-", "no repository type wraps a connection's Write")
+	}
 }
